@@ -290,12 +290,13 @@ void utcp_channels_uninit(struct utcp_channels* utcp_channels)
 	opened_channels_uninit(&utcp_channels->open_channels);
 }
 
-struct utcp_channel* utcp_channels_get_channel(struct utcp_channels* utcp_channels, struct utcp_bunch* utcp_bunch)
+struct utcp_channel* utcp_channels_get_channel(struct utcp_channels* utcp_channels, struct utcp_bunch* utcp_bunch, bool bIncoming)
 {
 	struct utcp_channel* utcp_channel = utcp_channels->Channels[utcp_bunch->ChIndex];
 	if (!utcp_channel)
 	{
-		if (utcp_bunch->bOpen)
+		// Incoming reliable (either open or later - the opening bunch may have been lost or overtaken), so create new channel.
+		if (utcp_bunch->bOpen || (bIncoming && utcp_bunch->bReliable))
 		{
 			utcp_channel = alloc_utcp_channel(utcp_channels->InitInReliable, utcp_channels->InitOutReliable);
 			utcp_channels->Channels[utcp_bunch->ChIndex] = utcp_channel;
@@ -305,7 +306,6 @@ struct utcp_channel* utcp_channels_get_channel(struct utcp_channels* utcp_channe
 		}
 		else
 		{
-			assert(false);
 			utcp_log(Warning, "utcp_get_channel failed");
 		}
 	}
